@@ -132,12 +132,14 @@ func initListener(network, addr string, options *Options) (ln *listener, err err
 		// only when running on Linux, FreeBSD, or DragonFlyBSD.
 		//
 		// Check out https://github.com/nginx/nginx/pull/337 for details.
-		err = setKeepAlive(
+		if err = setKeepAlive(
 			ln.fd,
 			true,
 			options.TCPKeepAlive,
 			options.TCPKeepInterval,
-			options.TCPKeepCount)
+			options.TCPKeepCount); err != nil {
+			ln.close() // the callers drop a listener that comes along with an error
+		}
 	}
 
 	return
